@@ -17,6 +17,14 @@ Decided:
          with a wrapping of its current value, and is never deleted / replaced through any spelling (``del``,
          ``setattr`` / ``delattr``, ``__dict__`` / ``vars()`` item stores, ``pop``, ``update``, ``clear`` ...) anywhere
          in the analysed tree (c13_entry.py): a later ``set_error_handler`` / ``add`` cannot un-wrap the application;
+  R13.f  exception containment before dispatch: every attribute store on the request object (an instance of the configurable
+         ``request_type``) that ``_dispatch_wsgi`` -- or a function of the tree it hands the request to before dispatch --
+         performs is contained by an ``except Exception`` (or broader) handler that swallows it, with no narrower handler
+         before it letting a subclass out, or can only run after such a contained store has succeeded: an exception there
+         would leave the WSGI callable before ``start_response`` is called;
+  R13.g  string header pairs: what clastic hands to a werkzeug response constructor as ``headers`` is the caller's object as
+         given / ``None`` / a mapping / a ``Headers`` object / a list of ``(str, str)`` pairs it wrote itself -- never a ``list``
+         assembled from values of unknown type, which ``Headers.__init__`` takes verbatim (fact read from the pinned werkzeug);
   R13.c  files are handed to the response: in build_file_response the object returned by open() is
          passed to file_wrapper(...) and stored as resp.response on the success path;
          StaticFileRoute.__init__'s probe open(...) is closed in the same statement.
@@ -410,31 +418,31 @@ def check_delegation(rep, app):
                 kinds = {source_kind(callee)}
         delegates.append((r, kinds))
         rep.check('R13.a', fkey(dw, r), ok, 'returns %s(%s, %s): the delegate gets the original environ and start_response' % (norm(v.func) if ok else '?', env, sr) if ok else
-                  '_dispatch_wsgi returns %s instead of a WSGI delegate call with (%s, %s)' % (short(r.value), env, sr), app, r)
+                  '_dispatch_wsgi returns %s instead of a WSGI delegate call with (%s, %s)' % (short(r.value), env, sr), dw.mod, r)
     falls = cfg.exit in cfg.reach([cfg.entry], avoid=set(cfg.nodes_of_all(rets)), normal_only=True)
     rep.check('R13.a', fkey(dw, 'no fall-through'), not falls and bool(rets), 'every normal path ends in a delegate return' if not falls and rets else
-              '_dispatch_wsgi can return None', app, dw.node)
+              '_dispatch_wsgi can return None', dw.mod, dw.node)
     # exactly one delegate: no other call mentions start_response
     other = [c for c in walk_body(dw.node) if isinstance(c, ast.Call) and sr in [norm(a) for a in list(c.args) + [k.value for k in c.keywords]]
              and not any(c is v for v in dcalls)]
     rep.check('R13.a', fkey(dw, 'start_response passed once'), not other, 'start_response is only ever handed to the single delegate' if not other else
-              'start_response is also passed to %s' % [short(c) for c in other], app, dw.node)
+              'start_response is also passed to %s' % [short(c) for c in other], dw.mod, dw.node)
     # parameters never re-bound / mutated
     rebinds = [s for s in stmts_of(dw.node) if isinstance(s, (ast.Assign, ast.AugAssign)) and
                any(isinstance(n, ast.Name) and n.id in (env, sr) and isinstance(n.ctx, ast.Store) for n in ast.walk(s))]
     effs = [e for e in effects.effects_in(dw.node) if e.root in (env, sr)]
     rep.check('R13.a', fkey(dw, 'environ untouched'), not rebinds and not effs, 'environ / start_response are neither re-bound nor mutated' if not rebinds and not effs else
-              'environ or start_response is modified before delegation: %s' % ([short(x) for x in rebinds] + [short(e.node) for e in effs]), app, dw.node)
+              'environ or start_response is modified before delegation: %s' % ([short(x) for x in rebinds] + [short(e.node) for e in effs]), dw.mod, dw.node)
     # response is the dispatch result; reroute comes from the caught exception
     ok = any('response' in k for r, k in delegates) and all(k and k <= {'response', 'reroute'} for r, k in delegates)
     rep.check('R13.a', fkey(dw, 'response is the dispatch result'), ok, 'the delegate is the response object dispatch() produced' if ok else
-              'the called response is not the result of self.dispatch(request)', app, dw.node)
+              'the called response is not the result of self.dispatch(request)', dw.mod, dw.node)
     call = app.func('Application.__call__')
     rs = returns_of(call)
     ok = len(rs) == 1 and isinstance(rs[0].value, ast.Call) and norm(deref(call, rs[0].value.func)) == 'self._dispatch_wsgi' and \
         [norm(a) for a in rs[0].value.args] == call.params()[1:3] and not rs[0].value.keywords
     rep.check('R13.a', fkey(call), ok, '__call__ delegates to self._dispatch_wsgi(environ, start_response) (the wrapped stack)' if ok else
-              '__call__ does not delegate to self._dispatch_wsgi with its own arguments', app, call.node)
+              '__call__ does not delegate to self._dispatch_wsgi with its own arguments', call.mod, call.node)
     # nobody in the core calls start_response or writes environ -- with positive control
     ctl = ast.parse('def f(environ, start_response):\n    start_response("200 OK", [])\n    environ["x"] = 1\n')
     c_calls = [c for c in ast.walk(ctl) if isinstance(c, ast.Call) and call_tail(c) == 'start_response']
@@ -442,11 +450,11 @@ def check_delegation(rep, app):
     if len(c_calls) != 1 or len(c_effs) != 1:
         raise AnalysisError('positive control for start_response/environ detectors failed')
     calls, writes = [], []
-    for name in CORE_MODS + ['clastic.static', 'clastic.middleware.compress', 'clastic.middleware.client_cache', 'clastic.middleware.stats',
-                             'clastic.middleware.cookie', 'clastic.middleware.profile', 'clastic.middleware.url', 'clastic.middleware.form',
-                             'clastic.middleware.context', 'clastic.render.simple', 'clastic.render.tabular', 'clastic.meta']:
-        m = repo.try_mod(name)
-        if m is None:
+    # every module of the package (a function may move into a new private module and be imported back) except the WSGI
+    # *server* side clastic ships, which builds the environ and owns start_response by role
+    from .c12_ring import SERVER_MODS
+    for m in repo.all_internal_modules():
+        if m.name in SERVER_MODS:
             continue
         for fi in m.functions.values():
             for c in walk_body(fi.node):
@@ -460,6 +468,444 @@ def check_delegation(rep, app):
     rep.check('R13.a', 'clastic::environ writers', not writes, 'no clastic function stores into a WSGI environ (0 found; control matched)' if not writes else
               'environ is written at %s' % [fi.key for _, fi, _ in writes], app)
     rep.floor('R13.a', 8)
+
+
+# ---- R13.f -----------------------------------------------------------------------------------------------------------
+def _swallows(fi, handler):
+    """The handler ends the exception: no ``raise`` statement in its body (nested definitions aside).  What else the body does
+    (``pass``, ``return``, a log call) does not let the *caught* exception out."""
+    todo = list(handler.body)
+    while todo:
+        s = todo.pop()
+        if isinstance(s, ast.Raise):
+            return False
+        if isinstance(s, (ast.FunctionDef, ast.AsyncFunctionDef, ast.ClassDef, ast.Lambda)):
+            continue
+        todo.extend(ast.iter_child_nodes(s))
+    return True
+
+
+def contained(fi, node, exc='Exception'):
+    """An exception of class ``exc`` (and so of any of its subclasses) raised by ``node`` does not leave function fi: an
+    enclosing ``try`` body has a handler that catches it and swallows it, and no handler listed before that one (which would
+    get a subclass first) lets it out again."""
+    from ..cfg import enclosing_tries
+    from ..astutil import handler_catches
+    cur = node
+    while cur is not None and cur is not fi.node:
+        if isinstance(cur, (ast.Lambda, ast.GeneratorExp)):
+            return False
+        cur = fi.mod.parents.get(cur)
+    for tr, part in enclosing_tries(fi.mod, node, fi.node):
+        if part != 'body':
+            continue
+        for i, h in enumerate(tr.handlers):
+            if handler_catches(h, exc):
+                if all(_swallows(fi, x) for x in tr.handlers[:i + 1]):
+                    return True
+                break
+    return False
+
+
+def _attr_stores(fi, names):
+    """[(node, statement)] -- stores into an attribute of an object one of ``names`` holds: ``r.a = v`` (also as an element
+    of an unpacking, augmented, annotated, as a loop / with target), ``setattr(r, ..)`` / ``r.__setattr__(..)`` /
+    ``object.__setattr__(r, ..)``."""
+    out = []
+    for n in walk_body(fi.node):
+        hit = False
+        if isinstance(n, ast.Attribute) and isinstance(n.ctx, ast.Store) and isinstance(n.value, ast.Name) and n.value.id in names:
+            hit = True
+        elif isinstance(n, ast.Call):
+            f = n.func
+            if isinstance(f, ast.Name) and f.id == 'setattr' and n.args and isinstance(n.args[0], ast.Name) and n.args[0].id in names:
+                hit = True
+            elif isinstance(f, ast.Attribute) and f.attr == '__setattr__' and \
+                    ((isinstance(f.value, ast.Name) and f.value.id in names) or (n.args and isinstance(n.args[0], ast.Name) and n.args[0].id in names)):
+                hit = True
+        if hit:
+            out.append((n, stmt_of(fi.mod, n)))
+    return out
+
+
+def check_request_stamping(rep, app):
+    """R13.f -- the request object is an instance of ``self.request_type``, which the application's author chooses; what the
+    entry point writes onto it before it hands over to ``dispatch`` (an id, a guid) is a courtesy that a request type may
+    refuse with whatever exception its ``__setattr__`` / descriptors raise.  An exception leaving the WSGI callable at that
+    point means no ``start_response`` call and no iterable for *every* request.  So, in the part of ``_dispatch_wsgi`` that
+    runs before dispatch (and in the functions of the tree it hands the request to there): every attribute store on the
+    request object is contained by a handler for ``Exception`` that swallows it, or can only run after such a contained
+    store on the same object has succeeded (the ``else`` of that ``try``; after it when the handler leaves the function)."""
+    dw = app.func('Application._dispatch_wsgi')
+    if len(dw.params()) < 3:
+        raise AnalysisError('_dispatch_wsgi does not take (self, environ, start_response)')
+    env, sr = dw.params()[1:3]
+    # the calls whose result is the delegate (``response = self.dispatch(request)``): the dispatch phase starts there
+    dispatch_calls = set()
+    for r in returns_of(dw):
+        v = deref(dw, r.value) if r.value is not None else None
+        if isinstance(v, ast.Call) and [norm(a) for a in v.args] == [env, sr]:
+            c = v.func
+            if isinstance(c, ast.Name) and c.id not in dw.params():
+                for st_, val, idx in assigned_value(dw.node, c.id):
+                    if isinstance(val, ast.Call):
+                        dispatch_calls.add(id(val))
+            c = deref(dw, c)
+            if isinstance(c, ast.Call):
+                dispatch_calls.add(id(c))
+
+    def built_here(fi):
+        out = set()
+        for s_ in stmts_of(fi.node):
+            if isinstance(s_, ast.Assign) and isinstance(s_.value, ast.Call) and isinstance(s_.value.func, ast.Attribute) and \
+                    s_.value.func.attr == 'request_type' and norm(s_.value.func.value) == 'self':
+                out.update(t.id for t in s_.targets if isinstance(t, ast.Name))
+        return out
+    sites = []          # (function, node, statement, receiver names of that function)
+    found_ctor = [False]
+    visited = set()
+
+    def visit(fi, names, depth):
+        names = alias_closure(fi, set(names) | built_here(fi))
+        if built_here(fi):
+            found_ctor[0] = True
+        key = (fi, tuple(sorted(names)))
+        if key in visited or depth > 3:
+            return
+        visited.add(key)
+        for n, st_ in _attr_stores(fi, names):
+            sites.append((fi, n, st_, names))
+        for c in walk_body(fi.node):
+            if not isinstance(c, ast.Call) or id(c) in dispatch_calls:
+                continue
+            rc = resolve_callee(fi, c)
+            if rc is None and isinstance(c.func, ast.Attribute) and isinstance(c.func.value, ast.Name) and c.func.value.id == 'self' and fi.cls is not None:
+                # a method the class inherits from a base / mixin of the analysed tree
+                try:
+                    meth = fi.mod.repo.find_method(fi.cls, c.func.attr)
+                except Exception:
+                    meth = None
+                if meth is not None and not meth.mod.external and not isinstance(meth.node, ast.Lambda):
+                    static = any(isinstance(d, ast.Name) and d.id == 'staticmethod' for d in meth.node.decorator_list)
+                    if all(isinstance(d, ast.Name) and d.id == 'staticmethod' for d in meth.node.decorator_list):
+                        rc = (meth, not static)
+            if rc is None:
+                continue
+            callee, drop = rc
+            if contained(fi, c):
+                continue            # whatever the callee does to the request: an exception out of it ends here
+            b = _bind_call(callee, c, drop)
+            passed = set()
+            if b is not None:
+                passed = set(p for p, a in b.items() if isinstance(a, ast.Name) and a.id in names)
+            elif any(isinstance(a, ast.Name) and a.id in names for a in list(c.args) + [k.value for k in c.keywords]):
+                raise AnalysisError('%s hands the request object to %s in a way that is not followed' % (fi.qualname, callee.qualname))
+            if passed or built_here(callee):
+                visit(callee, passed, depth + 1)
+    visit(dw, set(), 0)
+    if not found_ctor[0]:
+        raise AnalysisError('_dispatch_wsgi: no construction of the request object from self.request_type(...) found in it or in the '
+                            'functions it calls before dispatch')
+    by_fn = {}
+    for fi, n, st_, names in sites:
+        by_fn.setdefault(fi, []).append((n, st_))
+    n_ok = 0
+    for fi, lst in by_fn.items():
+        cfg = cfg_of(fi)
+        safe = [(n, st_) for n, st_ in lst if contained(fi, n)]
+        p_nodes = set(cfg.nodes_of_all([st_ for _, st_ in safe]))
+        exc_t = [m for (a, m) in cfg.exc_edges if a in p_nodes]
+        for n, st_ in lst:
+            ok = any(n is x for x, _ in safe)
+            how = 'contained by a handler for Exception that swallows it'
+            if not ok and p_nodes:
+                s_nodes = set(cfg.nodes_of(st_))
+                ok = bool(s_nodes) and cfg.must_pass(p_nodes, cfg.entry, s_nodes) and not (s_nodes & cfg.reach(exc_t))
+                how = 'runs only after a contained store on the request object has succeeded'
+            n_ok += 1 if ok else 0
+            rep.check('R13.f', fkey(fi, st_), ok, 'the store on the request object is %s' % how if ok else
+                      '%s stores an attribute on the request object (an instance of the configurable request_type) where an exception of '
+                      'the store -- any Exception a request type may raise to refuse it -- leaves the WSGI callable before start_response '
+                      'is called: not contained by an ``except Exception`` that swallows it, and not behind a contained store that '
+                      'succeeded' % fi.qualname, fi.mod, st_)
+    rep.ok('R13.f', fkey(dw, 'pre-dispatch stores'), '%d attribute store(s) on the request object before dispatch, all contained' % n_ok
+           if sites else 'nothing is stored on the request object before dispatch')
+
+
+# ---- R13.g -----------------------------------------------------------------------------------------------------------
+STR_CALLS = {'str', 'repr', 'format', 'chr', 'hex', 'oct', 'bin', 'unicode'}
+STR_METHODS = {'join', 'format', 'strip', 'lstrip', 'rstrip', 'lower', 'upper', 'title', 'capitalize', 'replace', 'decode', 'zfill',
+               'isoformat', 'hexdigest'}
+
+
+def str_typed(e, depth=0):
+    """The expression can only evaluate to a ``str`` (decided from its shape)."""
+    if depth > 6:
+        return False
+    if isinstance(e, ast.Constant):
+        return isinstance(e.value, str)
+    if isinstance(e, ast.JoinedStr):
+        return True
+    if isinstance(e, ast.Call):
+        f = e.func
+        if isinstance(f, ast.Name):
+            return f.id in STR_CALLS
+        return isinstance(f, ast.Attribute) and f.attr in STR_METHODS and (f.attr != 'decode' or True)
+    if isinstance(e, ast.BinOp) and isinstance(e.op, ast.Mod):
+        return str_typed(e.left, depth + 1)
+    if isinstance(e, ast.BinOp) and isinstance(e.op, ast.Add):
+        return str_typed(e.left, depth + 1) and str_typed(e.right, depth + 1)
+    if isinstance(e, ast.IfExp):
+        return str_typed(e.body, depth + 1) and str_typed(e.orelse, depth + 1)
+    return False
+
+
+def _str_pair(e):
+    return isinstance(e, ast.Tuple) and len(e.elts) == 2 and all(str_typed(x) for x in e.elts)
+
+
+def raw_pair_list(v):
+    """``v`` builds a ``list`` whose items are not known to be ``(str, str)`` pairs: a display with other items, a list
+    comprehension with another element, ``list(x)`` / ``sorted(x)`` of anything.  -> text, or None."""
+    if isinstance(v, ast.List):
+        bad = [x for x in v.elts if not _str_pair(x)]
+        return 'the list display %s' % short(v, 50) if bad else None
+    if isinstance(v, ast.ListComp):
+        return None if _str_pair(v.elt) else 'the list comprehension %s' % short(v, 60)
+    if isinstance(v, ast.Call) and isinstance(v.func, ast.Name) and v.func.id in ('list', 'sorted') and v.args:
+        a = v.args[0]
+        if isinstance(a, (ast.List, ast.ListComp, ast.GeneratorExp)) and (
+                (isinstance(a, ast.List) and all(_str_pair(x) for x in a.elts)) or (not isinstance(a, ast.List) and _str_pair(a.elt))):
+            return None
+        return 'the list %s' % short(v, 50)
+    if isinstance(v, ast.BinOp) and isinstance(v.op, ast.Add):
+        return raw_pair_list(v.left) or raw_pair_list(v.right)
+    if isinstance(v, ast.IfExp):
+        return raw_pair_list(v.body) or raw_pair_list(v.orelse)
+    if isinstance(v, ast.BoolOp):
+        for x in v.values:
+            t = raw_pair_list(x)
+            if t:
+                return t
+    return None
+
+
+def headers_list_is_verbatim(repo):
+    """The fact about the pinned werkzeug this rule rests on, read from its source: ``Headers.__init__`` extends its internal
+    list with a ``list`` argument as it is (``isinstance(defaults, (list, ..))`` -> ``self._list.extend(defaults)``), while any
+    other iterable / mapping goes through ``self.extend`` -> ``add``, which normalises every value.  -> True / False; None when
+    the source is not found."""
+    try:
+        m = repo.try_mod('werkzeug.datastructures')
+    except AnalysisError:
+        m = None
+    if m is None or 'Headers' not in m.classes or '__init__' not in m.classes['Headers'].methods:
+        return None
+    init = m.classes['Headers'].methods['__init__']
+    ps = init.params()
+    if len(ps) < 2:
+        return None
+    for n in ast.walk(init.node):
+        if isinstance(n, ast.If) and isinstance(n.test, ast.Call) and isinstance(n.test.func, ast.Name) and n.test.func.id == 'isinstance' and \
+                len(n.test.args) == 2 and norm(n.test.args[0]) == ps[1]:
+            kinds = [norm(x) for x in (n.test.args[1].elts if isinstance(n.test.args[1], ast.Tuple) else [n.test.args[1]])]
+            verbatim = any(isinstance(c, ast.Call) and isinstance(c.func, ast.Attribute) and c.func.attr == 'extend' and
+                           norm(c.func.value).startswith('self._') and [norm(a) for a in c.args] == [ps[1]] for b in n.body for c in ast.walk(b))
+            if 'list' in kinds and verbatim:
+                return True
+    return False
+
+
+def handed_headers(fi, c, pos, st_):
+    """[(value expression, statement it is evaluated at)] -- what call ``c`` passes as ``headers``: the keyword / positional
+    argument, or the entry ``'headers'`` of a mapping passed as ``**m`` when ``m`` is a local dict this function builds (a
+    display / ``dict(k=v)`` plus ``m['headers'] = v`` / ``m.update(headers=v)`` / ``m.setdefault('headers', v)``).  The
+    function's own ``**kwargs`` passed on is the caller's choice (as given): [].  None when no headers are passed."""
+    h = argn(c, 'headers', pos)
+    if h is not None:
+        return [(h, st_)]
+    out, seen_star = [], False
+    own_kw = fi.node.args.kwarg.arg if fi.node.args.kwarg else None
+    for k in c.keywords:
+        if k.arg is not None:
+            continue
+        seen_star = True
+        v = k.value
+        if isinstance(v, ast.Name) and v.id == own_kw:
+            continue
+        if isinstance(v, ast.Dict):
+            disp, name = v, None
+        elif isinstance(v, ast.Name) and v.id not in fi.params():
+            name = v.id
+            vals = [x for x in assigned_value(fi.node, name) if not isinstance(x[1], ast.AugAssign)]
+            if len(vals) != 1 or vals[0][2] is not None:
+                raise AnalysisError('%s passes **%s to the werkzeug response constructor: a mapping that is not built in one place' % (fi.qualname, name))
+            disp = vals[0][1]
+        else:
+            raise AnalysisError('%s passes **%s to the werkzeug response constructor: not followed' % (fi.qualname, short(v, 30)))
+        if isinstance(disp, ast.Dict):
+            for kk, vv in zip(disp.keys, disp.values):
+                if kk is None:
+                    if not (isinstance(vv, ast.Name) and vv.id == own_kw):
+                        raise AnalysisError('%s: the mapping passed as ** merges %s, which is not followed' % (fi.qualname, short(vv, 30)))
+                elif isinstance(kk, ast.Constant) and kk.value == 'headers':
+                    out.append((vv, stmt_of(fi.mod, disp) or st_))
+                elif not isinstance(kk, ast.Constant):
+                    raise AnalysisError('%s: the mapping passed as ** has a computed key' % fi.qualname)
+        elif isinstance(disp, ast.Call) and isinstance(disp.func, ast.Name) and disp.func.id == 'dict' and \
+                all(a_ is not None for a_ in [kw_.arg for kw_ in disp.keywords]) and \
+                (not disp.args or (len(disp.args) == 1 and isinstance(disp.args[0], ast.Name) and disp.args[0].id == own_kw)):
+            out.extend((kw_.value, stmt_of(fi.mod, disp) or st_) for kw_ in disp.keywords if kw_.arg == 'headers')
+        else:
+            raise AnalysisError('%s passes **%s to the werkzeug response constructor: %s is not a dict display / dict(k=v)' % (fi.qualname, name, short(disp, 30)))
+        if name is not None:
+            for n in walk_body(fi.node):
+                if isinstance(n, ast.Subscript) and isinstance(n.ctx, ast.Store) and isinstance(n.value, ast.Name) and n.value.id == name:
+                    par = fi.mod.parents.get(n)
+                    if isinstance(n.slice, ast.Constant):
+                        if n.slice.value == 'headers' and isinstance(par, ast.Assign):
+                            out.append((par.value, par))
+                    else:
+                        raise AnalysisError('%s stores into the mapping passed as ** under a computed key' % fi.qualname)
+                elif isinstance(n, ast.Call) and isinstance(n.func, ast.Attribute) and isinstance(n.func.value, ast.Name) and n.func.value.id == name:
+                    if n.func.attr == 'update':
+                        if n.args:
+                            raise AnalysisError('%s updates the mapping passed as ** from another mapping: not followed' % fi.qualname)
+                        out.extend((kw_.value, stmt_of(fi.mod, n)) for kw_ in n.keywords if kw_.arg == 'headers')
+                    elif n.func.attr == 'setdefault' and len(n.args) == 2 and isinstance(n.args[0], ast.Constant):
+                        if n.args[0].value == 'headers':
+                            out.append((n.args[1], stmt_of(fi.mod, n)))
+                    elif n.func.attr not in ('get', 'pop', 'keys', 'items', 'values', 'copy'):
+                        raise AnalysisError('%s: %s on the mapping passed as ** is not followed' % (fi.qualname, short(n, 40)))
+    if out:
+        return out
+    return [] if seen_star and own_kw is not None and any(k.arg is None and isinstance(k.value, ast.Name) and k.value.id == own_kw for k in c.keywords) else \
+        ([] if seen_star else None)
+
+
+def bad_headers_value(fi, h, at):
+    """Text when the value ``h`` (evaluated at statement ``at``) is, on some path, a list of pairs of unknown type that clastic
+    assembled -- following locals through their reaching definitions and helpers of the tree through their returns."""
+    bad = raw_pair_list(h)
+    if bad is not None or not isinstance(h, ast.Name) or h.id in fi.params():
+        return bad
+    fl = effects.Flow(fi)
+    seen, todo = set(), [(h.id, at)]
+    while todo and bad is None:
+        nm, at_ = todo.pop()
+        if (nm, id(at_)) in seen or len(seen) > 12:
+            continue
+        seen.add((nm, id(at_)))
+        for d in fl.reaching(nm, at_):
+            if d.kind == 'aug':
+                if any(x.kind == 'assign' and x.value is not None and isinstance(fl.unpacked(x)[0], (ast.List, ast.ListComp)) for x in fl.defs.get(nm, [])):
+                    bad = 'a list extended in place (%s)' % short(d.stmt, 40)
+                continue
+            if d.kind != 'assign':
+                continue
+            v, vat = fl.unpacked(d)
+            if v is None:
+                continue
+            bad = raw_pair_list(v)
+            if bad:
+                break
+            if isinstance(v, ast.Name) and v.id not in fi.params():
+                todo.append((v.id, d.stmt))
+            elif isinstance(v, ast.Call):
+                rc = resolve_callee(fi, v)
+                if rc is not None:
+                    # a helper of the tree that builds the value: what it returns
+                    for r in returns_of(rc[0]):
+                        if r.value is not None:
+                            t = raw_pair_list(deref(rc[0], r.value))
+                            if t:
+                                bad = '%s, returned by %s' % (t, rc[0].qualname)
+    return bad
+
+
+def check_header_handover(rep):
+    """R13.g -- "string header pairs": the values of the headers a caller gives an error / response object may be of any type
+    (an int ``Retry-After``, a list for a multi-valued header); werkzeug's ``Headers`` turns them into ``str`` pairs when it is
+    given a mapping, another iterable, or values through ``add`` / ``set`` / ``extend`` / item assignment -- but a ``list`` it
+    takes verbatim.  So what clastic hands to a werkzeug response constructor as ``headers`` is the caller's object as
+    given, ``None``, a mapping, a ``Headers`` object or a list of ``(str, str)`` pairs it wrote itself -- never a ``list`` it
+    assembled from values of unknown type."""
+    repo = rep.repo
+    from .c12_ring import SERVER_MODS
+    fact = headers_list_is_verbatim(repo)
+    if fact is None:
+        raise AnalysisError('werkzeug.datastructures.Headers.__init__ not found: cannot tell how a list of header pairs is treated')
+    if fact is False:
+        rep.ok('R13.g', 'werkzeug::Headers(list)', 'this werkzeug normalises a list argument of Headers() like any other: nothing to require')
+        return
+
+    def response_class(ci):
+        try:
+            mro = repo.mro(ci)
+        except Exception:
+            return False
+        for b in mro:
+            key = b.key if hasattr(b, 'key') else str(b)
+            if key.startswith('werkzeug.') and key.rpartition('::')[2].rpartition('.')[2] in ('BaseResponse', 'Response'):
+                return True
+        return False
+
+    def hands_to_werkzeug(fi, c):
+        """-> positional index of ``headers`` in the callee's call (self excluded) when call ``c`` in fi runs a werkzeug response
+        constructor: ``super(..).__init__(..)`` / ``Base.__init__(self, ..)`` in a class deriving from one, or a call of such a
+        class that does not define its own ``__init__`` in the analysed tree."""
+        f = c.func
+        ci = fi.cls
+        if isinstance(f, ast.Attribute) and f.attr == '__init__':
+            if isinstance(f.value, ast.Call) and isinstance(f.value.func, ast.Name) and f.value.func.id == 'super' and ci is not None and response_class(ci):
+                # the next __init__ in the MRO: only when that one is werkzeug's
+                for b in repo.mro(ci)[1:]:
+                    if hasattr(b, 'methods') and '__init__' in b.methods:
+                        return 2 if b.mod.external and b.key.startswith('werkzeug.') else None
+                return None
+            if isinstance(f.value, ast.Name):
+                kind, m_, obj = repo.resolve(fi.mod, f.value.id)
+                if kind == 'class' and obj.mod.external and obj.key.startswith('werkzeug.') and response_class(obj):
+                    return 3
+            return None
+        if isinstance(f, ast.Name) and f.id not in fi.params() and not assigned_value(fi.node, f.id):
+            kind, m_, obj = repo.resolve(fi.mod, f.id)
+            if kind == 'class' and response_class(obj):
+                init = repo.find_method(obj, '__init__')
+                if init is not None and init.mod.external and init.mod.name.startswith('werkzeug.'):
+                    return 2
+        return None
+    n_sites = 0
+    for m in repo.all_internal_modules():
+        if m.name in SERVER_MODS:
+            continue
+        for fi in m.functions.values():
+            if isinstance(fi.node, ast.Lambda):
+                continue
+            for c in walk_body(fi.node):
+                if not isinstance(c, ast.Call):
+                    continue
+                if not (c.keywords or len(c.args) >= 3):
+                    continue
+                pos = hands_to_werkzeug(fi, c)
+                if pos is None:
+                    continue
+                st_ = stmt_of(fi.mod, c)
+                hs = handed_headers(fi, c, pos, st_)
+                if hs is None:
+                    continue
+                n_sites += 1
+                bad = None
+                for h, at in hs:
+                    bad = bad or bad_headers_value(fi, h, at)
+                rep.check('R13.g', fkey(fi, 'headers handed to werkzeug'), bad is None,
+                          'the headers handed to the werkzeug response constructor are the caller\'s object as given / None / a mapping / a Headers '
+                          'object: every value goes through werkzeug\'s normalisation' if bad is None else
+                          '%s hands %s to the werkzeug response constructor as headers: Headers() takes a list verbatim (no str() of the values, no '
+                          'expansion of multi-valued entries), so a non-str value a caller supplied reaches start_response as it is' % (fi.qualname, bad),
+                          fi.mod, st_)
+    if not n_sites:
+        raise AnalysisError('no place found where clastic hands headers to a werkzeug response constructor (HTTPException.__init__ ...)')
 
 
 # ---- R13.b -----------------------------------------------------------------------------------------------------------
@@ -619,7 +1065,7 @@ def wrap_plan(app, ai, slot='_dispatch_wsgi'):
                     p.env = dict(zip(ps, c.args))
                     for k in c.keywords:
                         p.env[k.arg] = k.value
-                    p.site = stmt_of(app, c)
+                    p.site = stmt_of(ai.mod, c)
                     plans.append(p)
     if not plans:
         raise AnalysisError('no loop applying _safe_wrap_wsgi to the middlewares found in Application.__init__ or a method it calls')
@@ -692,18 +1138,18 @@ def check_wrap_order(rep, app):
     ok = ok and plan.each_once
     rep.check('R13.b', fkey(ai, 'wrap loop'), ok,
               'wrappers are applied innermost-first over the reverse of all middlewares, each wrapping the current stack: the first middleware ends up outermost' if ok else
-              'Application.__init__ does not wrap self._dispatch_wsgi over reversed(_get_all_middlewares(self.routes))', app, plan.node if lf is ai else site)
-    seh = [stmt_of(app, c) for c in walk_body(ai.node) if isinstance(c, ast.Call) and norm(c.func) == 'self.set_error_handler']
+              'Application.__init__ does not wrap self._dispatch_wsgi over reversed(_get_all_middlewares(self.routes))', ai.mod, plan.node if lf is ai else site)
+    seh = [stmt_of(ai.mod, c) for c in walk_body(ai.node) if isinstance(c, ast.Call) and norm(c.func) == 'self.set_error_handler']
     ok = len(seh) == 1 and acfg.must_pass(acfg.nodes_of(seh[0]), acfg.entry, acfg.nodes_of(site)) and \
         not (set(acfg.nodes_of(seh[0])) & acfg.reach(acfg.nodes_of(site)))
     rep.check('R13.b', fkey(ai, 'error handler innermost'), ok, 'the error handler\'s wrapper is applied before (inside) all middleware wrappers' if ok else
-              'set_error_handler does not run before the middleware wrapping loop', app, seh[0] if seh else ai.node)
-    adds = [stmt_of(app, c) for c in walk_body(ai.node) if isinstance(c, ast.Call) and norm(c.func) == 'self.add']
+              'set_error_handler does not run before the middleware wrapping loop', ai.mod, seh[0] if seh else ai.node)
+    adds = [stmt_of(ai.mod, c) for c in walk_body(ai.node) if isinstance(c, ast.Call) and norm(c.func) == 'self.add']
     site_nodes = set(acfg.nodes_of(site))
     after = acfg.reach(list(site_nodes), include_src=False)
     ok = bool(adds) and all(acfg.nodes_of(a) and (site_nodes & acfg.reach(acfg.nodes_of(a))) and not (set(acfg.nodes_of(a)) & after) for a in adds)
     rep.check('R13.b', fkey(ai, 'wrappers after routes'), ok, 'wrappers are collected after the constructor\'s routes are bound' if ok else
-              'the wrapping loop does not follow the binding of routes', app, ai.node)
+              'the wrapping loop does not follow the binding of routes', ai.mod, ai.node)
     sh = app.func('Application.set_error_handler')
     w = [st for st in stmts_of(sh.node) if slot_store(st) is not None]
     ok = len(w) == 1 and wrapping_store(app, sh, w[0])
@@ -711,7 +1157,7 @@ def check_wrap_order(rep, app):
         v, _ = through_temps(sh, slot_store(w[0]))
         ok = isinstance(v, ast.Call) and call_name(v) == '_safe_wrap_wsgi'
     rep.check('R13.b', fkey(sh), ok, 'set_error_handler wraps the current stack with the handler\'s wsgi_wrapper' if ok else
-              'set_error_handler does not wrap self._dispatch_wsgi', app, sh.node)
+              'set_error_handler does not wrap self._dispatch_wsgi', sh.mod, sh.node)
 
 
 def _comp_of(fi, expr):
@@ -829,7 +1275,7 @@ def check_collect_middlewares(rep, app):
             seq = dict((id(s_), i) for i, s_ in enumerate(stmts_of(gm.node)))
             for a in apps:
                 el = a.args[0].id
-                st = stmt_of(app, a)
+                st = stmt_of(gm.mod, a)       # (the definition may live in another module than the anchor: its own parent map)
                 levels = iteration_levels(gm, st)
                 if levels is None:
                     raise AnalysisError('_get_all_middlewares: the iteration around %s is not a nest of for loops / chain.from_iterable / comprehension clauses' % short(st))
@@ -851,7 +1297,7 @@ def check_collect_middlewares(rep, app):
                     bool(nested) and order < nested[0][5]
     rep.check('R13.b', fkey(gm), ok, 'the application\'s and each route\'s middlewares are walked in order; a type already collected is skipped '
               '(first occurrence kept)' if ok else
-              '_get_all_middlewares no longer keeps list order with first-occurrence de-duplication', app, gm.node)
+              '_get_all_middlewares no longer keeps list order with first-occurrence de-duplication', gm.mod, gm.node)
 
 
 def _is_none(cs, name):
@@ -884,7 +1330,7 @@ def check_safe_wrap(rep, app):
     r_inner = [r for r in returns_of(sw) if r.value is not None and norm(r.value) == ps[2]]
     ok = bool(r_inner) and all(_is_none(conds(sw, r), W) for r in r_inner)
     rep.check('R13.b', fkey(sw, 'no wrapper'), ok, 'without a wsgi_wrapper the inner callable is returned untouched' if ok else
-              '_safe_wrap_wsgi does not return the inner callable untouched when there is no wrapper', app, sw.node)
+              '_safe_wrap_wsgi does not return the inner callable untouched when there is no wrapper', sw.mod, sw.node)
     wr = [s for s in stmts_of(sw.node) if isinstance(s, ast.Assign) and isinstance(s.value, ast.Call) and norm(s.value.func) == W and
           len(s.targets) == 1 and isinstance(s.targets[0], ast.Name)]
     ok = len(wr) == 1 and [norm(a) for a in wr[0].value.args] == [ps[2]] and not wr[0].value.keywords
@@ -896,10 +1342,10 @@ def check_safe_wrap(rep, app):
         ok = ok and len(chk) == 1 and len(chk[0].args) + len(chk[0].keywords) == 1 and norm(argn(chk[0], app.func('check_valid_wsgi').params()[0], 0)) in res
         if ok:
             scfg = cfg_of(sw)
-            cst = stmt_of(app, chk[0])
+            cst = stmt_of(sw.mod, chk[0])
             ok = all(scfg.must_pass(scfg.nodes_of(cst), scfg.entry, scfg.nodes_of(r), normal_only=True) for r in others)
     rep.check('R13.b', fkey(sw, 'wrap and validate'), ok, 'the wrapper is called with the inner callable; the result is validated and returned' if ok else
-              '_safe_wrap_wsgi does not return the validated wsgi_wrapper(inner)', app, sw.node)
+              '_safe_wrap_wsgi does not return the validated wsgi_wrapper(inner)', sw.mod, sw.node)
 
 
 # -- check_valid_wsgi: which paths accept? -----------------------------------------------------------------------------
@@ -1084,7 +1530,7 @@ def check_valid_wsgi_rule(rep, app):
     ok = bool(accepting) and not bad and any(raise_type(r) == 'TypeError' for r in raises_of(cv))
     rep.check('R13.b', fkey(cv), ok, 'a wrapped callable must take (environ, start_response): every path that does not raise has compared its first two '
               'parameter names with exactly these' if ok else 'check_valid_wsgi no longer checks the parameter names' +
-              (' (accepts under %s)' % [('' if p else 'not ') + short(t, 60) for t, p in bad[0][2]] if bad else ''), app, cv.node)
+              (' (accepts under %s)' % [('' if p else 'not ') + short(t, 60) for t, p in bad[0][2]] if bad else ''), cv.mod, cv.node)
 
 
 # ---- R13.c -----------------------------------------------------------------------------------------------------------
@@ -1113,7 +1559,7 @@ def check_file_handover(rep, st):
         ok = ok and isinstance(mode, str) and 'b' in mode
     rep.check('R13.c', fkey(bfr, 'file handed to response'), ok,
               'the file opened (binary) for serving is wrapped by file_wrapper and becomes resp.response on every success path (closed by the response\'s close())' if ok else
-              'the opened file is not handed to the response through file_wrapper on every success path', st, opens[0] if opens else bfr.node)
+              'the opened file is not handed to the response through file_wrapper on every success path', bfr.mod, opens[0] if opens else bfr.node)
     # ... and nobody replaces the body afterwards: the file wrapper is the only reference through which close()
     # releases the file, also for HEAD (werkzeug closes resp.response in Response.close())
     for fi_ in st.functions.values():
@@ -1153,21 +1599,21 @@ def check_file_handover(rep, st):
         return isinstance(recv, ast.Attribute) and recv.attr == 'environ'
     ok = all(v is not None and from_environ(v) for v in fw)
     rep.check('R13.c', fkey(gfr, 'wsgi.file_wrapper'), ok, 'the server\'s wsgi.file_wrapper is used when offered' if ok else
-              'wsgi.file_wrapper from the environ is not honoured', st, gfr.node)
+              'wsgi.file_wrapper from the environ is not honoured', gfr.mod, gfr.node)
     sfi = st.func('StaticFileRoute.__init__')
     # the probe may sit in __init__ or in a function of the module __init__ calls
     holders = [sfi]
     for c in walk_body(sfi.node):
         if isinstance(c, ast.Call):
             rc = resolve_callee(sfi, c)
-            if rc is not None and rc[0] not in holders and rc[0].mod is st:
+            if rc is not None and rc[0] not in holders:      # (a function of the analysed tree, whichever module it lives in)
                 holders.append(rc[0])
     probes = [(h, c) for h in holders for c in walk_body(h.node) if isinstance(c, ast.Call) and call_name(c) == 'open']
 
     def closed(h, p):
         hcfg = cfg_of(h)
-        par = st.parents.get(p)
-        gp = st.parents.get(par)
+        par = h.mod.parents.get(p)
+        gp = h.mod.parents.get(par)
         if isinstance(par, ast.Attribute) and par.attr == 'close' and isinstance(gp, ast.Call) and gp.func is par:
             return True                       # open(...).close()
         if isinstance(par, ast.withitem) and par.context_expr is p:
@@ -1176,7 +1622,7 @@ def check_file_handover(rep, st):
             nm = par.targets[0].id
             if len(assigned_value(h.node, nm)) != 1:
                 return False
-            cl = [stmt_of(st, c) for c in walk_body(h.node) if isinstance(c, ast.Call) and isinstance(c.func, ast.Attribute) and
+            cl = [stmt_of(h.mod, c) for c in walk_body(h.node) if isinstance(c, ast.Call) and isinstance(c.func, ast.Attribute) and
                   c.func.attr == 'close' and norm(c.func.value) == nm]
             return bool(cl) and hcfg.must_pass(hcfg.nodes_of_all(cl), hcfg.nodes_of(par), hcfg.exit, normal_only=True)
         return False
@@ -1184,7 +1630,7 @@ def check_file_handover(rep, st):
         raise AnalysisError('StaticFileRoute.__init__: no probe open(...) found in it or in the functions of the module it calls')
     ok = all(closed(h, p) for h, p in probes)
     rep.check('R13.c', fkey(sfi, 'probe closed'), bool(ok), 'the construction-time probe is closed in the same statement' if ok else
-              'StaticFileRoute.__init__ leaves its probe file open', st, sfi.node)
+              'StaticFileRoute.__init__ leaves its probe file open', sfi.mod, sfi.node)
 
 
 def run(rep):
@@ -1193,7 +1639,9 @@ def run(rep):
     st = repo.mod(STATIC)
     rep.decide('R13.a exactly one WSGI delegate per path with untouched (environ, start_response); R13.b wrapper order; '
                'R13.c opened files handed to the response; R13.d application-level middlewares are wrapper sources '
-               'independently of the routes; R13.e the wrapped entry point is never removed or replaced after construction')
+               'independently of the routes; R13.e the wrapped entry point is never removed or replaced after construction; '
+               'R13.f stores on the request object before dispatch cannot raise out of the WSGI callable; R13.g header values reach '
+               'werkzeug through its normalising entry points')
     rep.decline('status-line / header validity, close() semantics, bytes-ness of bodies: inside werkzeug')
     rep.assume('werkzeug BaseResponse.__call__ calls start_response exactly once before yielding body bytes and omits the body for HEAD')
     rep.rule('R13.a', 'CFG: every path of _dispatch_wsgi ends in one delegate call with the original parameters')
@@ -1201,6 +1649,10 @@ def run(rep):
     rep.rule('R13.c', 'open / hand-over pairing')
 
     _group(rep, check_delegation, rep, app)
+    rep.rule('R13.f', 'exception containment before dispatch: stores on the request object (configurable request_type) cannot raise out of the WSGI callable')
+    _group(rep, check_request_stamping, rep, app)
+    rep.rule('R13.g', 'header values of unknown type reach werkzeug only through its normalising entry points (never as a list clastic assembled)')
+    _group(rep, check_header_handover, rep)
     _group(rep, check_wrap_order, rep, app)
     _group(rep, check_collect_middlewares, rep, app)
     rep.rule('R13.d', 'the wrapper sources contain the application-level middlewares whether or not a route is bound')
